@@ -1,6 +1,7 @@
 import XsVerif.Driver.Util
 import XsVerif.Model.Modes
 import XsVerif.Model.AttrDefaults
+import XsVerif.Model.CharData
 open Lean XsVerif.Driver XsVerif.Modes
 
 namespace XsVerif.Driver.C04
@@ -183,6 +184,18 @@ def handleAttrs (j : Json) : Except String Json := do
 
 end AttrDefaults
 
+/-- op cdata: {"text": str, "kids": [["e"|"n", tail], …]} -/
+def handleCdata (j : Json) : Except String Json := do
+  let text ← getStr j "text"
+  let kids ← (← getArr j "kids").toList.mapM fun k => do
+    let a ← k.getArr?
+    let tag ← (a[0]?.getD Json.null).getStr?
+    let tail ← (a[1]?.getD Json.null).getStr?
+    if tag == "e" then pure (XsVerif.CharData.Kid.elem tail) else pure (XsVerif.CharData.Kid.node tail)
+  return Json.mkObj [("tree", Json.bool (XsVerif.CharData.hasCdata text kids)),
+                     ("dropped", Json.bool (XsVerif.CharData.hasCdataDropped text kids)),
+                     ("skipping", Json.bool (XsVerif.CharData.hasCdataSkippingNodes text kids))]
+
 def handle (j : Json) : Except String Json := do
   let op ← getStr j "op"
   match op with
@@ -224,6 +237,7 @@ def handle (j : Json) : Except String Json := do
                        ("unsaturated", nat (osStatus (cliCodeUnsaturated fs)))]
   | "attrs" => handleAttrs j
   | "wild" => handleWild j
+  | "cdata" => handleCdata j
   | "union" =>
     let ms ← (← getArr j "members").toList.mapM parseMember
     let g ← getNat j "generic"
